@@ -104,7 +104,7 @@ theorem create_schedule_free_bytes (a : CreateArgs) (data sched : List Nat) :
 /-! non-vacuity: a two-population call set with every genotype class satisfies the hypotheses -/
 example : WfCallSet ["s0", "s1 x"] ["chr1", "2"]
     [("chr1", 5, [.genotype 0, .genotype 2]), ("2", 17, [.skipped .missing, .ploidyError]), ("2", 17, [.genotype 1, .skipped .multiallelic])] := by
-  refine ⟨by decide, ?_, ?_, by decide, ?_⟩
+  refine ⟨by decide, ?_, by decide, ?_, by decide, ?_⟩
   · simp only [List.mem_cons, List.not_mem_nil, or_false]
     rintro c (rfl | rfl) <;> (unfold WfName; decide)
   · simp only [List.mem_cons, List.not_mem_nil, or_false]
